@@ -214,7 +214,9 @@ def c01(tier, seed):
                 "several byte valuations; distinct = (valuation, inbox sequence) whose recovery opened every report of the "
                 "group correctly; the random driver adds thresholds up to 64/200 validated by Trace_Star")
     out.assumptions = [STAR_ASSUME]
-    _recover_family(out, "C01", ["Star_q_honest.cfg"] + (["Star_t_honest.cfg"] if thorough else []), seed,
+    # Clients_Q: thresholds 2/3, measurement and threshold-only differences; Clients_T: thresholds 0/1/3,
+    # epoch-only difference, empty measurement and epoch, the randomness-server source
+    _recover_family(out, "C01", ["Star_q_honest.cfg", "Star_t_honest.cfg" if thorough else "Star_t4_honest.cfg"], seed,
                     8 if thorough else 4)
     _star_big(out, "C01", seed, thorough)
     return out
@@ -230,7 +232,7 @@ def c05(tier, seed):
                 "predicted error; the byte-level sweep alters every byte of the first and of a later share")
     out.assumptions = [STAR_ASSUME, "valuations with 1-byte symbols are skipped for altered collections (a wrong key "
                        "reproduces a 1-byte plaintext with probability 2^-8)"]
-    _recover_family(out, "C05", ["Star_q_faults.cfg", "Star_a_faults.cfg"] + (["Star_t_faults.cfg"] if thorough else []),
+    _recover_family(out, "C05", ["Star_q_faults.cfg", "Star_a_faults.cfg", "Star_t_faults.cfg" if thorough else "Star_t3_faults.cfg"],
                     seed, 6 if thorough else 4, stride=1 if thorough else 2)
     for k in range(6 if thorough else 1):
         out.add_vh(run_vh(["tamper-sweep", "--seed", seed + k, "--positions", "all"], timeout=3000), only={"C05"})
@@ -260,7 +262,7 @@ def c17(tier, seed):
                 "epochs) are executed through star_wasm::create_share / group_shares with UTF-8 valuations (incl. empty and "
                 "non-ASCII epochs); create_share output is compared with the core library; distinct = distinct inbox x valuation")
     out.assumptions = [STAR_ASSUME, "group_shares is called natively (rlib), not through a WASM runtime"]
-    _recover_family(out, "C17", ["Star_q_honest.cfg"] + (["Star_t_honest.cfg"] if thorough else []), seed, 10)
+    _recover_family(out, "C17", ["Star_q_honest.cfg", "Star_t_honest.cfg" if thorough else "Star_t4_honest.cfg"], seed, 10)
     return out
 
 
@@ -341,7 +343,7 @@ def c02(tier, seed):
     _star_secrecy(out, "Star_secrecy_t.cfg")
     _shamir_small(out, ["Shamir_secrecy_q5.cfg", "Shamir_secrecy_q7.cfg", "Shamir_q5_t3.cfg"] +
                   (["Shamir_q7_t3.cfg", "Shamir_q5_t2.cfg"] if thorough else []))
-    _recover_family(out, "C02", ["Star_q_faults.cfg", "Star_q_honest.cfg"] + (["Star_t_faults.cfg"] if thorough else []),
+    _recover_family(out, "C02", ["Star_q_faults.cfg", "Star_q_honest.cfg", "Star_t_faults.cfg" if thorough else "Star_t3_faults.cfg"],
                     seed, 6 if thorough else 4)
     _star_big(out, "C02", seed, thorough)
     out.add_vh(run_vh(["secret-scan", "--seed", seed, "--n", 200 if thorough else 40]), only={"C02"})
